@@ -417,7 +417,8 @@ def run_tlc(module, cfg=None, workers=8, simulate=None, depth=None, timeout=1800
     meta = os.path.join(BUILD, "tlc", run_id)
     shutil.rmtree(meta, ignore_errors=True)
     os.makedirs(meta, exist_ok=True)
-    cmd = ["java", "-XX:+UseParallelGC", "-Xmx" + heap, "-Xss512m", "-DTLA-Library=" + SPEC]
+    # java.io.tmpdir: TLC unpacks its standard modules into a fresh tlc-* directory per run and leaves it behind
+    cmd = ["java", "-XX:+UseParallelGC", "-Xmx" + heap, "-Xss512m", "-DTLA-Library=" + SPEC, "-Djava.io.tmpdir=" + meta]
     if dfs:
         cmd.append("-Dtlc2.tool.queue.IStateQueue=StateDeque")
     cmd += ["-cp", "/opt/veriftools/tla/tla2tools.jar:/opt/veriftools/tla/CommunityModules-deps.jar",
